@@ -66,6 +66,16 @@ func devCmd(argv []string) {
 		if *only != "" && !strings.Contains(ct.Target, *only) {
 			continue
 		}
+		inPkgs := false
+		for _, pat := range strings.Split(*pkgs, ",") {
+			q := strings.TrimSuffix(strings.TrimPrefix(pat, "./"), "/...")
+			if strings.HasSuffix(ct.Pkg, "/"+q) || (strings.HasSuffix(pat, "/...") && strings.Contains(ct.Pkg, "/"+q+"/")) {
+				inPkgs = true
+			}
+		}
+		if !inPkgs {
+			continue
+		}
 		fn := P.FindFunc(ct)
 		if fn == nil {
 			fmt.Printf("MISSING %s\n", k)
